@@ -12,6 +12,7 @@ mod c12;
 mod c13;
 mod c14;
 mod c15;
+mod c16;
 mod chan;
 mod c19;
 mod smoke;
@@ -33,6 +34,7 @@ pub fn build(prop: &str, tier: &str) -> Vec<Scenario> {
         "C13" => c13::build(quick),
         "C14" => c14::build(quick),
         "C15" => c15::build(quick),
+        "C16" => c16::build(quick),
         "C19" => c19::build(quick),
         _ => vec![],
     }
